@@ -832,4 +832,295 @@ theorem closed_node_attrs_agree (cfg : Cfg) (fuel ef : Nat) (env : Env) (n : Nat
     rw [List.nil_append]
     exact agree_nodeAttrs cfg fuel ef env n dbg attrs hc bl hb s t' hg h1 h3
 
+
+/-! ### a whole `attr` statement on an edge -/
+
+theorem run_addEdgeAttr {ρ : Type} (a b : Nat) (k : String) (v : Val) (f : Fail) (s : MSt ρ) :
+    Prog.run (gopP (ρ := ρ) (.addEdgeAttr a b k v f)) s =
+      match s.graph.addEdgeAttr a b k v with
+      | none => .ok none s
+      | some none => .ok (some none) s
+      | some (some (g', false)) => .ok (some (some ())) { s with graph := g' }
+      | some (some (g', true)) => .fail f { s with graph := g' } := by
+  simp only [gopP, Prog.run, GraphOp.apply]
+  cases h : s.graph.addEdgeAttr a b k v with
+  | none => rfl
+  | some o =>
+    cases o with
+    | none => rfl
+    | some p =>
+      obtain ⟨g', c⟩ := p
+      cases c <;> rfl
+
+theorem strict_edge_attr_step {β : Type} (a b : Nat) (name : String) (v : Val) (k : Unit → SM β) (s1 : MSt SRest) :
+    Prog.run (Strict.addAttribute (ρ := SRest) (.edge a b) name v >>= k) s1 =
+      match s1.graph.addEdgeAttr a b name v with
+      | none => .fail (.panic "graph index") s1
+      | some none => .fail (.err (.base .undefinedEdge "")) s1
+      | some (some (g', false)) => Prog.run (k ()) { s1 with graph := g' }
+      | some (some (g', true)) => .fail (.err (.base .duplicateAttribute "")) { s1 with graph := g' } := by
+  rw [Prog.run_bind]
+  simp only [Strict.addAttribute]
+  rw [Prog.run_bind, run_addEdgeAttr]
+  cases hadd : s1.graph.addEdgeAttr a b name v with
+  | none => rfl
+  | some o =>
+    cases o with
+    | none => rfl
+    | some p =>
+      obtain ⟨g', c⟩ := p
+      cases c <;> rfl
+
+theorem addEdgeAttr_none_iff (g : CGraph) (a b : Nat) (k : String) (v : Val) :
+    (g.addEdgeAttr a b k v = none ↔ g.node? a = none) ∧
+    (g.addEdgeAttr a b k v = some none ↔ (g.node? a).isSome ∧ g.getEdge a b = none) := by
+  simp only [CGraph.addEdgeAttr, CGraph.getEdge]
+  cases hn : g.node? a with
+  | none => simp
+  | some nd =>
+    cases he : nd.getEdge b with
+    | none => simp [he]
+    | some ea => simp [he]
+
+
+theorem run_read_bind {ρ β : Type} (k : CGraph → Prog ρ β) (t : MSt ρ) :
+    Prog.run (gopP (ρ := ρ) .read >>= k) t = Prog.run (k t.graph) t := by
+  simp [gopP, Bind.bind, Prog.bind, Prog.run, GraphOp.apply]
+
+theorem lazy_edge_attr_step (cfg : Cfg) (ef a b : Nat) (name : String) (lv : LVal) (dbg : StmtCtx) (l : List (String × LVal)) (t : MSt LSt) :
+    Prog.run (evalEdgeAttrs cfg ef a b dbg ((name, lv) :: l)) t =
+      match Prog.run (evalL cfg ef lv) t with
+      | .fail f t1 => .fail f t1
+      | .ok v t1 =>
+        match t1.graph.addEdgeAttr a b name v with
+        | none => .fail (.panic "graph index") t1
+        | some none => .fail (.err (.base .undefinedEdge "")) t1
+        | some (some (g', false)) => Prog.run (evalEdgeAttrs cfg ef a b dbg l) { recorded t1 (.edgeAttr a b name) dbg with graph := g' }
+        | some (some (g', true)) => .fail (conflictFail (t1.rest.prevDbg.lookup (.edgeAttr a b name)) dbg)
+            { recorded t1 (.edgeAttr a b name) dbg with graph := g' } := by
+  rw [evalEdgeAttrs, Prog.run_bind]
+  cases Prog.run (evalL cfg ef lv) t with
+  | fail f t1 => rfl
+  | ok v t1 =>
+    dsimp only
+    rw [run_read_bind]
+    have h1 := (addEdgeAttr_none_iff t1.graph a b name v).1
+    have h2 := (addEdgeAttr_none_iff t1.graph a b name v).2
+    cases hge : t1.graph.getEdge a b with
+    | none =>
+      dsimp only
+      cases hn : t1.graph.node? a with
+      | none =>
+        have : t1.graph.addEdgeAttr a b name v = none := h1.mpr hn
+        rw [this]
+        simp [panicAt, Prog.run]
+      | some nd =>
+        have : t1.graph.addEdgeAttr a b name v = some none := h2.mpr ⟨by simp [hn], hge⟩
+        rw [this]
+        simp [throwK, Prog.run]
+    | some ea =>
+      dsimp only
+      rw [Prog.run_bind]
+      simp only [recordPrev, primP, Prog.run]
+      rw [Prog.run_bind, run_addEdgeAttr]
+      simp only [recorded]
+      cases hadd : t1.graph.addEdgeAttr a b name v with
+      | none =>
+        have := h1.mp hadd
+        simp [CGraph.getEdge, this] at hge
+      | some o =>
+        cases o with
+        | none =>
+          have := (h2.mp hadd).2
+          rw [this] at hge; cases hge
+        | some p =>
+          obtain ⟨g', c⟩ := p
+          cases c <;> rfl
+
+/-- strict execution of an attribute list on an EDGE against lazy evaluation of what was built from it -/
+theorem agree_edgeAttrs (cfg : Cfg) (fuel ef : Nat) (env : Env) (a b : Nat) (dbg : StmtCtx) (attrs : List AttrE)
+    (hc : closedAttrs cfg ef attrs) (bl : List (String × LVal)) (hb : buildAttrs env attrs = .ok bl)
+    (s : MSt SRest) (t : MSt LSt) (hg : s.graph = t.graph) (h1 : s.ps.cancelAt = none) (h2 : t.ps.cancelAt = none) :
+    AgreeG (Prog.run (Strict.execAttrs cfg fuel env (.edge a b) attrs) s) (Prog.run (evalEdgeAttrs cfg ef a b dbg bl) t) := by
+  induction attrs generalizing bl s t with
+  | nil =>
+    simp only [buildAttrs] at hb; cases hb
+    rw [Strict.execAttrs.eq_def]
+    exact ⟨hg, h1, h2⟩
+  | cons x rest ih =>
+    obtain ⟨name, e⟩ := x
+    have ha := hc (name, e) (List.mem_cons_self ..)
+    have hrest : closedAttrs cfg ef rest := fun y hy => hc y (List.mem_cons_of_mem _ hy)
+    simp only [buildAttrs] at hb
+    cases hbe : buildE env e with
+    | error f => rw [hbe] at hb; cases hb
+    | ok lv =>
+      rw [hbe] at hb
+      cases hbr : buildAttrs env rest with
+      | error f => rw [hbr] at hb; cases hb
+      | ok l =>
+        rw [hbr] at hb; cases hb
+        rw [Strict.execAttrs.eq_def]
+        simp only [ha.2.2]
+        rw [run_poll_bind _ _ s h1, Prog.run_bind, lazy_edge_attr_step]
+        have hag := ((agree_exprs cfg fuel env).1 e ha.1).2 lv hbe ef (bump s) t ha.2.1 hg h1 h2
+        cases hr1 : Prog.run (Strict.evalExpr cfg fuel env e) (bump s) with
+        | fail _ _ =>
+          cases hr2 : Prog.run (evalL cfg ef lv) t with
+          | ok _ _ => rw [hr1, hr2] at hag; exact (agree_fail_ok _ _ _ _ _ _ hag).elim
+          | fail _ _ => trivial
+        | ok v s1 =>
+          cases hr2 : Prog.run (evalL cfg ef lv) t with
+          | fail _ _ => rw [hr1, hr2] at hag; exact (agree_ok_fail _ _ _ _ _ _ hag).elim
+          | ok v' t1 =>
+            rw [hr1, hr2] at hag
+            obtain ⟨hv, hg1, _, _, hc1, hc2⟩ := (agree_ok_ok ..).mp hag
+            subst hv
+            dsimp only
+            rw [strict_edge_attr_step, hg1]
+            cases hadd : t1.graph.addEdgeAttr a b name v with
+            | none => trivial
+            | some o =>
+              cases o with
+              | none => trivial
+              | some p =>
+                obtain ⟨g', c⟩ := p
+                cases c with
+                | true => trivial
+                | false =>
+                  dsimp only
+                  exact ih hrest l hbr _ _ rfl hc1 hc2
+
+
+theorem strict_edge_attrs_fail_of_build (cfg : Cfg) (fuel ef : Nat) (env : Env) (a b : Nat) (attrs : List AttrE)
+    (hc : closedAttrs cfg ef attrs) (f : Fail) (hb : buildAttrs env attrs = .error f)
+    (s : MSt SRest) (h1 : s.ps.cancelAt = none) :
+    isFail (Prog.run (Strict.execAttrs cfg fuel env (.edge a b) attrs) s) := by
+  induction attrs generalizing s f with
+  | nil => simp [buildAttrs] at hb
+  | cons x rest ih =>
+    obtain ⟨name, e⟩ := x
+    have ha := hc (name, e) (List.mem_cons_self ..)
+    have hrest : closedAttrs cfg ef rest := fun y hy => hc y (List.mem_cons_of_mem _ hy)
+    rw [Strict.execAttrs.eq_def]
+    simp only [ha.2.2]
+    rw [run_poll_bind _ _ s h1, Prog.run_bind]
+    simp only [buildAttrs] at hb
+    cases hbe : buildE env e with
+    | error f1 =>
+      have := ((agree_exprs cfg fuel env).1 e ha.1).1 f1 hbe (bump s)
+      cases hr : Prog.run (Strict.evalExpr cfg fuel env e) (bump s) with
+      | ok _ _ => rw [hr] at this; exact this.elim
+      | fail _ _ => trivial
+    | ok lv =>
+      rw [hbe] at hb
+      cases hbr : buildAttrs env rest with
+      | ok l => rw [hbr] at hb; cases hb
+      | error f2 =>
+        cases hr : Prog.run (Strict.evalExpr cfg fuel env e) (bump s) with
+        | fail _ _ => trivial
+        | ok v s1 =>
+          dsimp only
+          rw [strict_edge_attr_step]
+          have hs1 : s1.ps.cancelAt = none := by
+            have := Prog.cancelAt_preserved (Strict.evalExpr cfg fuel env e) (bump s)
+            rw [hr] at this
+            simpa [Prog.Res.st, bump_cancel, h1] using this
+          cases hadd : s1.graph.addEdgeAttr a b name v with
+          | none => trivial
+          | some o =>
+            cases o with
+            | none => trivial
+            | some p =>
+              obtain ⟨g', c⟩ := p
+              cases c with
+              | true => trivial
+              | false =>
+                dsimp only
+                exact ih hrest f2 hbr _ hs1
+
+/-- **an `attr` statement on an EDGE, with closed values and plain names**: as `closed_node_attrs_agree`; an edge that does
+not exist when the attributes are applied is `UndefinedEdge` in both modes -/
+theorem closed_edge_attrs_agree (cfg : Cfg) (fuel ef : Nat) (env : Env) (a b : Nat) (dbg : StmtCtx) (attrs : List AttrE)
+    (hc : closedAttrs cfg ef attrs) (s : MSt SRest) (t t' : MSt LSt)
+    (hg : s.graph = t'.graph) (h1 : s.ps.cancelAt = none) (h2 : t.ps.cancelAt = none) (h3 : t'.ps.cancelAt = none) :
+    match Prog.run (lazyAttrs cfg fuel ef env attrs []) t with
+    | .fail _ _ => isFail (Prog.run (Strict.execAttrs cfg fuel env (.edge a b) attrs) s)
+    | .ok built _ => AgreeG (Prog.run (Strict.execAttrs cfg fuel env (.edge a b) attrs) s)
+                            (Prog.run (evalEdgeAttrs cfg ef a b dbg built) t') := by
+  obtain ⟨k, hk⟩ := run_lazyAttrs_closed cfg fuel ef env attrs [] hc t h2
+  rw [hk]
+  cases hb : buildAttrs env attrs with
+  | error f =>
+    dsimp only
+    exact strict_edge_attrs_fail_of_build cfg fuel ef env a b attrs hc f hb s h1
+  | ok bl =>
+    dsimp only
+    rw [List.nil_append]
+    exact agree_edgeAttrs cfg fuel ef env a b dbg attrs hc bl hb s t' hg h1 h3
+
+
+/-! ### condition lists -/
+
+/-- the expression a condition tests -/
+def condExpr : Cond → Expr
+  | .some e _ => e
+  | .none e _ => e
+  | .bool e _ => e
+
+/-- **condition lists agree.** `if c1, c2, …` evaluates every condition (no short-circuit) in both modes; over closed
+expressions the conjunction is the same boolean in both modes, or both fail -/
+theorem closed_conds_agree (cfg : Cfg) (fuel ef : Nat) (env : Env) (cs : List Cond)
+    (hc : ∀ c ∈ cs, closedE (condExpr c) = true ∧ depthE (condExpr c) < ef)
+    (s : MSt SRest) (t : MSt LSt) (hg : s.graph = t.graph) (h1 : s.ps.cancelAt = none) (h2 : t.ps.cancelAt = none) :
+    Agree s t (Prog.run (Strict.testConds cfg fuel env cs) s) (Prog.run (Lazy.testCondsL cfg fuel ef env cs) t) := by
+  induction cs generalizing s t with
+  | nil =>
+    simp only [Strict.testConds, Lazy.testCondsL]
+    exact (agree_ok_ok ..).mpr ⟨rfl, hg, rfl, rfl, h1, h2⟩
+  | cons c rest ih =>
+    have hcc := hc c (List.mem_cons_self ..)
+    have hrest : ∀ c' ∈ rest, closedE (condExpr c') = true ∧ depthE (condExpr c') < ef := fun c' h => hc c' (List.mem_cons_of_mem _ h)
+    simp only [Strict.testConds, Lazy.testCondsL]
+    rw [Prog.run_bind, Prog.run_bind]
+    have hcond : AgreeF s t (Prog.run (Strict.testCond cfg fuel env c) s) (Prog.run (Lazy.testCondL cfg fuel ef env c) t) := by
+      cases c with
+      | some e l => exact closed_conditions_agree cfg fuel ef env _ e l (Or.inl rfl) hcc.1 hcc.2 s t hg h1 h2
+      | none e l => exact closed_conditions_agree cfg fuel ef env _ e l (Or.inr (Or.inl rfl)) hcc.1 hcc.2 s t hg h1 h2
+      | bool e l => exact closed_conditions_agree cfg fuel ef env _ e l (Or.inr (Or.inr rfl)) hcc.1 hcc.2 s t hg h1 h2
+    cases hr1 : Prog.run (Strict.testCond cfg fuel env c) s with
+    | fail _ _ =>
+      cases hr2 : Prog.run (Lazy.testCondL cfg fuel ef env c) t with
+      | ok _ _ => rw [hr1, hr2] at hcond; exact hcond.elim
+      | fail _ _ => exact agree_fail_fail ..
+    | ok b s1 =>
+      cases hr2 : Prog.run (Lazy.testCondL cfg fuel ef env c) t with
+      | fail _ _ => rw [hr1, hr2] at hcond; exact hcond.elim
+      | ok b' t1 =>
+        rw [hr1, hr2] at hcond
+        obtain ⟨hb, hg1, hs1, ht1⟩ := hcond
+        subst hb
+        have hc1 : s1.ps.cancelAt = none := by
+          have := Prog.cancelAt_preserved (Strict.testCond cfg fuel env c) s
+          rw [hr1] at this; simpa [Prog.Res.st, h1] using this
+        have hc2 : t1.ps.cancelAt = none := by
+          have := Prog.cancelAt_preserved (Lazy.testCondL cfg fuel ef env c) t
+          rw [hr2] at this; simpa [Prog.Res.st, h2] using this
+        dsimp only
+        rw [Prog.run_bind, Prog.run_bind]
+        have := ih hrest s1 t1 hg1 hc1 hc2
+        cases hr3 : Prog.run (Strict.testConds cfg fuel env rest) s1 with
+        | fail _ _ =>
+          cases hr4 : Prog.run (Lazy.testCondsL cfg fuel ef env rest) t1 with
+          | ok _ _ => rw [hr3, hr4] at this; exact (agree_fail_ok _ _ _ _ _ _ this).elim
+          | fail _ _ => exact agree_fail_fail ..
+        | ok bs s2 =>
+          cases hr4 : Prog.run (Lazy.testCondsL cfg fuel ef env rest) t1 with
+          | fail _ _ => rw [hr3, hr4] at this; exact (agree_ok_fail _ _ _ _ _ _ this).elim
+          | ok bs' t2 =>
+            rw [hr3, hr4] at this
+            obtain ⟨hv, hg2, hs2, ht2, hc3, hc4⟩ := (agree_ok_ok ..).mp this
+            subst hv
+            exact (agree_ok_ok ..).mpr ⟨rfl, hg2, hs2.trans hs1, ht2.trans ht1, hc3, hc4⟩
+
 end ClosedAgree
